@@ -275,11 +275,32 @@ func buildC03(cfg *mon.Config) []*mon.Sub {
 		},
 		Exec: c03Exec,
 	}
+	codepoints := &mon.Sub{
+		Name: "every-code-point", Rule: "every Unicode code point of the Basic Multilingual Plane (surrogates excluded) and every 17th (quick: 257th) astral code point, alone, between letters, inside quotes and inside a mustache tag, fed to all entry points; " + oracle + "; a case is one (code point, entry-point family)",
+		Exhaustive: true, DistinctByGen: true, Floor: 1000,
+		Gen: func(emit func(string)) {
+			step := 1
+			for cp := 0; cp <= 0x10FFFF; cp += step {
+				if cp >= 0xD800 && cp <= 0xDFFF {
+					continue
+				}
+				if cp > 0xFFFF {
+					step = cfg.N(257, 17)
+				}
+				if cfg.Quick() && cp > 0x3000 && cp < 0xF000 && cp%7 != 0 {
+					continue // quick: CJK and private-use ranges thinned out; boundaries stay
+				}
+				ch := string(rune(cp))
+				emit("str\x000\x00" + ch + "a" + ch + " 'q" + ch + "' {{" + ch + "}} \"" + ch + "\"")
+			}
+		},
+		Exec: c03Exec,
+	}
 	corpus := corpusSub(cfg, "corpus", "crash", func(c *mon.Case, data string) {
 		c.SetPayload("str\x000\x00" + data)
 		c03Expression(c, data, nil, 0)
 		c03Template(c, data, 0)
 		c03Tokenizers(c, data, 0)
 	})
-	return []*mon.Sub{exh, hostile, tmpl, rnd, corpus}
+	return []*mon.Sub{exh, hostile, tmpl, rnd, codepoints, corpus}
 }
